@@ -106,3 +106,50 @@ func ZZ_C20_shuffle() {
 		}
 	}
 }
+
+// zzRefShuffle is F.1/F.2 with E_4 of the block counter, for concrete entropy.
+func zzRefShuffle(s []types.U32, h types.OpaqueHash) []types.U32 {
+	n := len(s)
+	r := make([]uint32, n)
+	for i := 0; i < n; i++ {
+		pre := append(append([]byte{}, h[:]...), byte(i/8), byte((i/8)>>8), byte((i/8)>>16), byte((i/8)>>24))
+		d := hashUtil.Blake2bHash(pre)
+		j := 4 * (i % 8)
+		r[i] = uint32(d[j]) | uint32(d[j+1])<<8 | uint32(d[j+2])<<16 | uint32(d[j+3])<<24
+	}
+	work := append([]types.U32{}, s...)
+	out := make([]types.U32, 0, n)
+	for i := 0; i < n; i++ {
+		l := len(work)
+		idx := int(r[i] % uint32(l))
+		out = append(out, work[idx])
+		work[idx] = work[l-1]
+		work = work[:l-1]
+	}
+	return out
+}
+
+// ZZ_C20_long: sequences of 1026..1040 elements (more than 128 blocks of eight random
+// numbers, where the four-octet block counter has a non-zero second octet in a
+// variable-length encoding) with two fixed entropies and real digests: Shuffle equals the
+// F.1/F.2 reference. All inputs are concrete: this harness is a differential run, not a
+// symbolic one; it exists because the other C20 harnesses keep the length below 10.
+//zz:workers=4
+func ZZ_C20_long() {
+	zzvt.ConcreteHashes()
+	n := 1026 + 7*zzvt.Range("len", 0, 2)
+	var h types.OpaqueHash
+	h[0], h[31] = byte(0x11*(1+zzvt.Range("entropy", 0, 1))), 0xEE
+	s := make([]types.U32, n)
+	for i := range s {
+		s[i] = types.U32(i)
+	}
+	want := zzRefShuffle(s, h)
+	got := Shuffle(append([]types.U32{}, s...), h) // Shuffle permutes its argument in place
+	zzvt.Assert(len(got) == n, "length-kept")
+	ok := len(got) == n
+	for i := 0; ok && i < n; i++ {
+		ok = got[i] == want[i]
+	}
+	zzvt.Assert(ok, "long-shuffle-equals-reference")
+}
